@@ -568,6 +568,47 @@ def difference_collect_to_env(s, rewrites=None):
     return rx.sub(rep, s)
 
 
+def drain_for_each_to_loop(s, rewrites=None):
+    """D21 (drain form): the statement `V.drain(..).for_each(|x| { BODY });` over a Vec place V becomes
+        let mut idx_x: usize = 0; while idx_x < V.len() { let x = &V[idx_x]; BODY idx_x += 1; } V.clear();
+    (drain(..) hands every element to the closure, in order, and leaves V empty; BODY sees a reference)."""
+    rx = re.compile(r'^([ \t]*)(\w+)\s*\.drain\(\.\.\)\s*\.for_each\(\|(\w+)\|\s*\{', re.M)
+    while True:
+        m = rx.search(s)
+        if not m:
+            return s
+        ind, v, x = m.group(1), m.group(2), m.group(3)
+        i = 'idx_' + x
+        ob = m.end() - 1
+        cb = _match(s, ob, '{', '}')
+        body = s[ob + 1:cb]
+        tail = re.match(r'\s*\)\s*;', s[cb + 1:])
+        if not tail or re.search(r'\b(continue|return|break)\b|\?', body):
+            raise Undecided('unsupported construct: D21 not applicable to drain(..).for_each over %s' % v)
+        new = ('%(d)slet mut %(i)s: usize = 0;\n%(d)swhile %(i)s < %(v)s.len() {\n%(d)s    let %(x)s = &%(v)s[%(i)s];%(body)s\n'
+               '%(d)s    %(i)s += 1;\n%(d)s}\n%(d)s%(v)s.clear();') % dict(d=ind, i=i, v=v, x=x, body=body.rstrip())
+        if rewrites is not None:
+            rewrites.append('D21 drain(..).for_each over %s' % v)
+        s = s[:m.start()] + new + s[cb + 1 + tail.end():]
+
+
+def into_iter_collect_to_env(s, rewrites=None):
+    """D19 (conversion forms): `X.into_iter().collect::<HashSet<T>>()` becomes `vec_into_set(X)` and `X.into_iter().collect()` becomes
+    `into_vec(X)`: environment functions the unit declares with the meaning of collecting every element of X (a set holds each once;
+    a Vec made from a set holds each element once, in the set's iteration order)."""
+    def rep1(m):
+        if rewrites is not None:
+            rewrites.append('D19 %s collected into a HashSet' % m.group(1))
+        return 'vec_into_set(%s)' % m.group(1)
+
+    def rep2(m):
+        if rewrites is not None:
+            rewrites.append('D19 %s collected' % m.group(1))
+        return 'into_vec(%s)' % m.group(1)
+    s = re.sub(r'\b(\w+)\.into_iter\(\)\.collect::<\s*HashSet<[^>]*>\s*>\(\)', rep1, s)
+    return re.sub(r'\b(\w+)\.into_iter\(\)\.collect\(\)', rep2, s)
+
+
 def position_to_loop(s, rewrites=None):
     """D17: the expression `E.iter().position(|x| PRED)` over a Vec/VecDeque place E (PRED an expression) becomes the search
     loop it stands for, as a block expression:
